@@ -2,7 +2,8 @@ import Zc.Proofs.QueueRun
 import Zc.Proofs.Classify
 import Zc.Proofs.Response
 import Zc.Proofs.ResponseComplete
-import Zc.Props.C12Host
+import Zc.Proofs.HostLive
+import Zc.GenFacts.FnQueue
 /-! # C12 — reply timing: jitter, aggregation, one-second protection, truncated queries
 
 Numbers in the statements (20, 120, 500, 1000, 1020, 1200, 400) come from the English property;
@@ -14,7 +15,11 @@ fires exactly when due, the clock never passes a due timer, every draw lies in t
 asked for, a stamp is not in the future) — by induction over the run.  The classification theorems
 hold for every cache state, clock value and question mix.
 
-Reading of "arrival" for the queue: an `add` carries the stamp `now` the code passes
+Readings (second review): a truncated train is one query and has *arrived when its last packet has* (section "Truncated trains"
+at the end); the one-second clause is read on its words — every multicast of the record, as answer or additional, by whichever
+block (section "The one-second clause on the wire"); deviations of the code from these readings are findings, not tolerances.
+
+The queue theorems speak about the two instants the code handles: an `add` carries the stamp `now` the code passes
 (`first_packet.now`) and the loop time `clock` at which it is executed; for an ordinary query the two
 coincide (`t`), for a reassembled truncated query the stamp is the arrival of its first packet and
 `clock` the instant the hold timer fired.  Lower bounds are relative to the stamp, upper bounds to
@@ -56,14 +61,16 @@ theorem C12_window_protected {c0 : Int} {evs : List QEv} {q' : Queue} {c' : Int}
   exact ⟨a, ha, h1, h2, by omega, by omega⟩
 
 /-- Every queued answer is on the wire in time: after any reachable state, an `add` executed at `c`
-is followed — whatever happens next — by a batch containing each of its records at some
-`s ∈ [c, c + agg + addl]`, unless the run stops before `c + agg + addl`. -/
+is followed — whatever happens next, **registry changes included** (`QEv.remove`: `async_remove_answers`, the repair of D5,
+called when a service is unregistered) — by a batch containing each of its records at some `s ∈ [c, c + agg + addl]`, unless
+the run stops before `c + agg + addl` or the record is withdrawn by such a change (`withdrawnIn post r`: then it must *not*
+go out any more, C08).  Records of other services are not affected by a withdrawal (`Queue.remove_keeps`). -/
 theorem C12_on_wire {p : QP} (hp : p.ok) {c0 : Int} {pre : List QEv} {q1 : Queue} {c1 : Int} {outs1 : List (Int × Dict)}
     (hpre : Run p {} c0 pre q1 c1 outs1)
     {c now draw : Int} {answers : Dict} {post : List QEv} {q' : Queue} {c' : Int} {outs : List (Int × Dict)}
     (hrun : Run p q1 c1 (.add c now draw answers :: post) q' c' outs) :
     ∀ r ∈ answers.keys,
-      (∃ o ∈ outs, r ∈ o.2.keys ∧ c ≤ o.1 ∧ o.1 ≤ c + p.agg + p.addl) ∨ c' ≤ c + p.agg + p.addl := by
+      (∃ o ∈ outs, r ∈ o.2.keys ∧ c ≤ o.1 ∧ o.1 ≤ c + p.agg + p.addl) ∨ c' ≤ c + p.agg + p.addl ∨ withdrawnIn post r := by
   intro r hr
   have hI1 := (hpre.safe hp [] (QInv.init p c0)).1
   cases hrun with
@@ -71,34 +78,37 @@ theorem C12_on_wire {p : QP} (hp : p.ok) {c0 : Int} {pre : List QEv} {q1 : Queue
     obtain ⟨hI2, _⟩ := hI1.step hp he
     obtain ⟨g', hg', hr', hb⟩ := Queue.add_has p q1 hI1 c now draw he.1 answers hr
     have htimes := hrest.times
-    rcases hrest.live hp _ hI2 r (c + p.agg + p.addl) ⟨g', hg', hr', by omega⟩ with ⟨o, ho, h1, h2⟩ | ⟨g, hg, _, hD⟩
+    rcases hrest.live hp _ hI2 r (c + p.agg + p.addl) ⟨g', hg', hr', by omega⟩ with ⟨o, ho, h1, h2⟩ | ⟨g, hg, _, hD⟩ | hw
     · exact Or.inl ⟨o, by simpa [Queue.stepQ] using ho, h1, htimes.2 o ho, h2⟩
     · have := (hrest.safe hp _ hI2).1.not_late hg
-      exact Or.inr (by omega)
+      exact Or.inr (Or.inl (by omega))
+    · exact Or.inr (Or.inr hw)
 
 /-- ... within 500 ms for the aggregation queue -/
 theorem C12_on_wire_aggregate {c0 : Int} {pre : List QEv} {q1 : Queue} {c1 : Int} {outs1 : List (Int × Dict)}
     (hpre : Run outQP {} c0 pre q1 c1 outs1)
     {c now draw : Int} {answers : Dict} {post : List QEv} {q' : Queue} {c' : Int} {outs : List (Int × Dict)}
     (hrun : Run outQP q1 c1 (.add c now draw answers :: post) q' c' outs) :
-    ∀ r ∈ answers.keys, (∃ o ∈ outs, r ∈ o.2.keys ∧ c ≤ o.1 ∧ o.1 ≤ c + 500) ∨ c' ≤ c + 500 := by
+    ∀ r ∈ answers.keys, (∃ o ∈ outs, r ∈ o.2.keys ∧ c ≤ o.1 ∧ o.1 ≤ c + 500) ∨ c' ≤ c + 500 ∨ withdrawnIn post r := by
   intro r hr
   have e1 := outQP_addl; have e2 := outQP_agg
-  rcases C12_on_wire outQP_ok hpre hrun r hr with ⟨o, ho, h1, h2, h3⟩ | h
+  rcases C12_on_wire outQP_ok hpre hrun r hr with ⟨o, ho, h1, h2, h3⟩ | h | h
   · exact Or.inl ⟨o, ho, h1, h2, by omega⟩
-  · exact Or.inr (by omega)
+  · exact Or.inr (Or.inl (by omega))
+  · exact Or.inr (Or.inr h)
 
 /-- ... within 1.2 s for the protected queue -/
 theorem C12_on_wire_protected {c0 : Int} {pre : List QEv} {q1 : Queue} {c1 : Int} {outs1 : List (Int × Dict)}
     (hpre : Run delayQP {} c0 pre q1 c1 outs1)
     {c now draw : Int} {answers : Dict} {post : List QEv} {q' : Queue} {c' : Int} {outs : List (Int × Dict)}
     (hrun : Run delayQP q1 c1 (.add c now draw answers :: post) q' c' outs) :
-    ∀ r ∈ answers.keys, (∃ o ∈ outs, r ∈ o.2.keys ∧ c ≤ o.1 ∧ o.1 ≤ c + 1200) ∨ c' ≤ c + 1200 := by
+    ∀ r ∈ answers.keys, (∃ o ∈ outs, r ∈ o.2.keys ∧ c ≤ o.1 ∧ o.1 ≤ c + 1200) ∨ c' ≤ c + 1200 ∨ withdrawnIn post r := by
   intro r hr
   have e1 := delayQP_addl; have e2 := delayQP_agg
-  rcases C12_on_wire delayQP_ok hpre hrun r hr with ⟨o, ho, h1, h2, h3⟩ | h
+  rcases C12_on_wire delayQP_ok hpre hrun r hr with ⟨o, ho, h1, h2, h3⟩ | h | h
   · exact Or.inl ⟨o, ho, h1, h2, by omega⟩
-  · exact Or.inr (by omega)
+  · exact Or.inr (Or.inl (by omega))
+  · exact Or.inr (Or.inr h)
 
 /-- the invariant behind both: in every reachable state there is exactly one armed timer iff the
 queue is non-empty, and it is due inside the head group's window and not in the past -/
@@ -118,6 +128,42 @@ theorem C12_one_timer {p : QP} (hp : p.ok) {c0 : Int} {evs : List QEv} {q' : Que
     obtain ⟨d, hd⟩ := hI.sk.nonempty_timer hne
     have := hI.sk.timer_le hd g.sk (List.mem_map_of_mem hg)
     exact ⟨d, hd, this.2, by simpa [Sk.deadline, Group.sk] using this.1⟩
+
+/-! ## registry changes while answers are queued (`async_remove_answers`, the repair of D5) -/
+
+/-- what a withdrawal does to the queue, exactly: afterwards no pending group carries a withdrawn record, neither as an answer
+nor as an additional; every other pending answer is still there, in a group with the same window; timer and group windows are
+untouched (so the bounds of `C12_window` / `C12_on_wire` go on for the records that stay) -/
+theorem C12_remove_exact (q : Queue) (rm : List RecId) :
+    (∀ g ∈ (q.removeRecords rm).groups, ∀ r ∈ rm, r ∉ g.answers.keys ∧ ∀ e ∈ g.answers, r ∉ e.2) ∧
+    (∀ g ∈ q.groups, ∀ r ∈ g.answers.keys, r ∉ rm → ∃ g' ∈ (q.removeRecords rm).groups, r ∈ g'.answers.keys ∧ g'.sa = g.sa ∧ g'.sb = g.sb) ∧
+    (q.removeRecords rm).timer = q.timer ∧ (q.removeRecords rm).groups.map Group.sk = q.groups.map Group.sk := by
+  refine ⟨?_, ?_, rfl, map_sk_removeRecords q rm⟩
+  · intro g' hg' r hr
+    simp only [Queue.removeRecords, List.mem_map] at hg'
+    obtain ⟨g, _, rfl⟩ := hg'
+    refine ⟨fun h => ((Dict.keys_withdraw _ _ _).mp h).2 hr, ?_⟩
+    intro e he hre
+    simp only [Dict.withdraw, List.mem_map, List.mem_filter] at he
+    obtain ⟨e0, _, rfl⟩ := he
+    simp only [List.mem_filter, Bool.not_eq_true', List.contains_eq_mem, decide_eq_false_iff_not] at hre
+    exact hre.2 hr
+  · intro g hg r hr hnr
+    refine ⟨{ g with answers := g.answers.withdraw rm }, ?_, (Dict.keys_withdraw _ _ _).mpr ⟨hr, hnr⟩, rfl, rfl⟩
+    simp only [Queue.removeRecords, List.mem_map]
+    exact ⟨g, hg, rfl⟩
+
+/-- a legal run with a registry change while answers are queued: records 1 and 3 (additional 2) are queued at 0, record 1 and
+its additional 2 are withdrawn at 10; the batch at 20 carries record 3 alone -/
+example : Run outQP {} 0 [.add 0 0 20 [(1, [2]), (3, [2])], .remove 10 [1, 2], .fire 20] {} 20 [(20, [(3, [])])] := by
+  refine Run.cons (e := .add 0 0 20 [(1, [2]), (3, [2])]) ?_ (Run.cons (e := .remove 10 [1, 2]) ?_ (Run.cons (e := .fire 20) ?_ (Run.nil _ _)))
+  · refine ⟨by decide, by decide, by decide, by decide, ?_⟩
+    intro d hd; cases hd
+  · refine ⟨by decide, ?_⟩
+    intro d hd
+    have h2 : some (20 : Int) = some d := hd
+    cases h2; decide
+  · exact ⟨by decide, by decide⟩
 
 /-! ## "aggregated with other pending answers" -/
 
@@ -384,7 +430,7 @@ theorem C12_aggregated_on_wire {h : Host} {clock : Int} {pkts : List Pkt} {addr 
     (hclock : c1 ≤ clock) (hstamp : ∀ first, pkts.head? = some first → first.now ≤ clock)
     (hdue : ∀ d, h.outQ.timer = some d → clock ≤ d)
     {post : List QEv} {q' : Queue} {c' : Int} {outs : List (Int × Dict)} (hpost : Run outQP r.host.outQ clock post q' c' outs) :
-    (∃ o ∈ outs, rid ∈ o.2.keys ∧ clock ≤ o.1 ∧ o.1 ≤ clock + 500) ∨ c' ≤ clock + 500 := by
+    (∃ o ∈ outs, rid ∈ o.2.keys ∧ clock ≤ o.1 ∧ o.1 ≤ clock + 500) ∨ c' ≤ clock + 500 ∨ withdrawnIn post rid := by
   obtain ⟨first, hf, _, _, hq1, _⟩ := assemble_spec hs hqa
   obtain ⟨d, hd1, hd2, heq⟩ := hq1.2 (Dict.isEmpty_false_of_mem hr)
   rw [heq] at hpost
@@ -402,7 +448,7 @@ theorem C12_protected_on_wire {h : Host} {clock : Int} {pkts : List Pkt} {addr p
     (hclock : c1 ≤ clock) (hstamp : ∀ first, pkts.head? = some first → first.now ≤ clock)
     (hdue : ∀ d, h.delayQ.timer = some d → clock ≤ d)
     {post : List QEv} {q' : Queue} {c' : Int} {outs : List (Int × Dict)} (hpost : Run delayQP r.host.delayQ clock post q' c' outs) :
-    (∃ o ∈ outs, rid ∈ o.2.keys ∧ clock ≤ o.1 ∧ o.1 ≤ clock + 1200) ∨ c' ≤ clock + 1200 := by
+    (∃ o ∈ outs, rid ∈ o.2.keys ∧ clock ≤ o.1 ∧ o.1 ≤ clock + 1200) ∨ c' ≤ clock + 1200 ∨ withdrawnIn post rid := by
   obtain ⟨first, hf, _, _, _, hq2⟩ := assemble_spec hs hqa
   obtain ⟨d, hd1, hd2, heq⟩ := hq2.2 (Dict.isEmpty_false_of_mem hr)
   rw [heq] at hpost
@@ -435,6 +481,7 @@ theorem C12_tc_silent {h : Host} {t : Int} {addr port dataId size : Nat} {hasQu 
   | idle lis => exact (perform_idle hp).2
   | defer lis d => exact (perform_defer hp).2
   | ready d => obtain ⟨t', he⟩ := decide_ready hd; cases he
+  | remove d recs => exact (perform_remove hp).1
   | answer lis pkts addr' port' =>
     exfalso
     simp only [Host.decide, hnt, Bool.false_eq_true, if_false] at hd
@@ -553,5 +600,459 @@ example : ∃ (seen : SeenMap) (now : Int) (answers : Dict) (r : RecId) (s : See
 example : ((({} : QR).addMcast false [(7, { created := 100, ttl := 120 })] 1099 1 33 [(7, [])]).mcastLast = [7]) := by decide
 example : ((({} : QR).addMcast false [(7, { created := 100, ttl := 120 })] 1100 1 33 [(7, [])]).mcastNow = [7]) := by decide
 example : ((({} : QR).addMcast false [(7, { created := 100, ttl := 120 })] 1100 2 33 [(7, [])]).mcastAgg = [7]) := by decide
+
+/-! ## C12 over runs of the whole host (formerly `Props/C12Host.lean`; moved here so that the evidence lists these theorems)
+
+`Zc.Props.C12` proves the timing bounds for one `MulticastOutgoingQueue` in isolation (`Run`) and links a classified query to
+them under hypotheses about the block.  Here the same bounds are theorems about **every run of the host model** — datagrams,
+truncated-query timers and both queue timers interleaved in any way — that satisfies the event-loop facts `LoopAx`
+(`Zc.Proofs.HostRun`): loop time is monotone, no block runs after a pending timer's due time, a timer callback runs exactly
+when due; blocks are atomic.  `Host.step` checks these facts, so every accepted run (`Host.run … = .ok …`, what trace acceptance
+establishes for every replayed simulator trace) is such a run: `C12_host_accepted`.
+
+Each `add` of a run is identified as an assembled query of that run (`Assembled`): the block's time is the handling time `c`,
+the stamp is the arrival of the query's first packet, the records are what `async_response` classified.  Numbers are the English
+property's. -/
+
+/-- every run the model accepts satisfies the loop facts at every block -/
+theorem C12_host_accepted (evs : List Ev) (h : Host) (clock : Int) (h' : Host) (outs : List (Int × List Out × List Draw))
+    (hr : Host.run h clock evs = .ok (h', outs)) :
+    ∃ c' tr, HRun h clock evs h' c' tr ∧ outs = tr.map (fun p => (p.1.time, p.2.outs, p.2.draws)) :=
+  HRun.of_run evs h clock h' outs hr
+
+/-- **Run-level invariant** (from the initial state, along every run): both queues satisfy C12's timed invariant, every deferred
+packet is older than the clock, and **there is at most one truncated-query timer per source address, armed only while
+packets of that address are deferred** -/
+theorem C12_host_invariant {c0 : Int} {evs : List Ev} {h' : Host} {c' : Int} {tr : List (Ev × StepOut)} (hr : HRun {} c0 evs h' c' tr) :
+    (∃ hO hD, HInv hO hD c' h') ∧
+    ∀ a, (h'.lis.timers.filter (fun tm => tm.addr == a)).length ≤ 1 ∧
+      (h'.lis.timers.filter (fun tm => tm.addr == a) ≠ [] → h'.lis.deferredOf a ≠ []) := by
+  have hI := hr.inv [] [] (HInv.init c0)
+  exact ⟨⟨_, _, hI⟩, hI.timers⟩
+
+/-- **Window, aggregation queue, over host runs.**  Whatever `out_queue`'s timer callback multicasts at `s` in a run from the
+initial state: no record twice, and each record `x` answers a query assembled in an earlier block of the same run — handled at
+`c ≤ s`, first packet arrived at `t`, `x` classified *aggregate* by `async_response` — with `t + 20 ≤ s ≤ c + 500`. -/
+theorem C12_host_window_aggregate {c0 : Int} {evs : List Ev} {h' : Host} {c' : Int} {tr : List (Ev × StepOut)}
+    (hr : HRun {} c0 evs h' c' tr) :
+    ∀ p ∈ tr, ∀ s, p.1 = .qfire s false → ∀ o ∈ p.2.outs, ∃ b, o = Out.ofMcast b ∧ b.keys.Nodup ∧
+      ∀ x ∈ b.keys, ∃ st ∈ traceStates {} tr, ∃ pkts port first qa, Assembled st.1 st.2.1 pkts port first qa ∧
+        x ∈ qa.mcastAgg.keys ∧ st.2.1.time ≤ s ∧ first.now + 20 ≤ s ∧ s ≤ st.2.1.time + 500 := by
+  intro p hp s hps o ho
+  obtain ⟨b, hb, hn, hw⟩ := hr.safe false [] [] (HInv.init c0) p hp s hps o ho
+  refine ⟨b, hb, hn, fun x hx => ?_⟩
+  obtain ⟨ad, had, h1, h2, h3, h4⟩ := hw x hx
+  simp only [Bool.false_eq_true, if_false, List.nil_append] at had
+  obtain ⟨st, hst, pkts, port, first, qa, hasm, rfl⟩ := traceAdds_origin false tr {} ad had
+  have e1 := drawLo_eq; have e2 := outQP_addl; have e3 := outQP_agg
+  simp only [qpOf, Bool.false_eq_true, if_false] at h1 h2 h3 h4
+  exact ⟨st, hst, pkts, port, first, qa, hasm, h1, h2, by omega, by omega⟩
+
+/-- **Window, protected queue, over host runs**: `t + 1020 ≤ s ≤ c + 1200`, the record classified *seen in the last second*. -/
+theorem C12_host_window_protected {c0 : Int} {evs : List Ev} {h' : Host} {c' : Int} {tr : List (Ev × StepOut)}
+    (hr : HRun {} c0 evs h' c' tr) :
+    ∀ p ∈ tr, ∀ s, p.1 = .qfire s true → ∀ o ∈ p.2.outs, ∃ b, o = Out.ofMcast b ∧ b.keys.Nodup ∧
+      ∀ x ∈ b.keys, ∃ st ∈ traceStates {} tr, ∃ pkts port first qa, Assembled st.1 st.2.1 pkts port first qa ∧
+        x ∈ qa.mcastLast.keys ∧ st.2.1.time ≤ s ∧ first.now + 1020 ≤ s ∧ s ≤ st.2.1.time + 1200 := by
+  intro p hp s hps o ho
+  obtain ⟨b, hb, hn, hw⟩ := hr.safe true [] [] (HInv.init c0) p hp s hps o ho
+  refine ⟨b, hb, hn, fun x hx => ?_⟩
+  obtain ⟨ad, had, h1, h2, h3, h4⟩ := hw x hx
+  simp only [if_true, List.nil_append] at had
+  obtain ⟨st, hst, pkts, port, first, qa, hasm, rfl⟩ := traceAdds_origin true tr {} ad had
+  have e1 := drawLo_eq; have e2 := delayQP_addl; have e3 := delayQP_agg
+  simp only [qpOf, if_true] at h1 h2 h3 h4
+  exact ⟨st, hst, pkts, port, first, qa, hasm, h1, h2, by omega, by omega⟩
+
+/-- **One-second clause, timing, over host runs** (`_partial`, D12b): a protected batch at `s` is at least one second after
+every sighting `created` that precedes the arrival of the *first* packet of the query that caused it (for an ordinary query:
+its arrival) — the hypothesis `created ≤ first.now` is what `C12_one_sec_timing_refuted` shows cannot be dropped — and at most
+1.2 s after that query was handled. -/
+theorem C12_host_one_sec_timing_partial {c0 : Int} {evs : List Ev} {h' : Host} {c' : Int} {tr : List (Ev × StepOut)}
+    (hr : HRun {} c0 evs h' c' tr) (created : Int) :
+    ∀ p ∈ tr, ∀ s, p.1 = .qfire s true → ∀ o ∈ p.2.outs, ∃ b, o = Out.ofMcast b ∧
+      ∀ x ∈ b.keys, ∃ st ∈ traceStates {} tr, ∃ pkts port first qa, Assembled st.1 st.2.1 pkts port first qa ∧
+        x ∈ qa.mcastLast.keys ∧ (created ≤ first.now → created + 1000 ≤ s) ∧ s ≤ st.2.1.time + 1200 := by
+  intro p hp s hps o ho
+  obtain ⟨b, hb, _, hw⟩ := C12_host_window_protected hr p hp s hps o ho
+  refine ⟨b, hb, fun x hx => ?_⟩
+  obtain ⟨st, hst, pkts, port, first, qa, hasm, h1, _, h3, h4⟩ := hw x hx
+  exact ⟨st, hst, pkts, port, first, qa, hasm, h1, fun hc => by omega, h4⟩
+
+/-- **From classification to the wire, over host runs.**  In any state reached by a run from the initial state (`HInv`), let
+a block assemble a query and `async_response` classify `x` as aggregate (`d = false`) or seen-in-the-last-second
+(`d = true`).  Then in *every* continuation of the run, `x` is multicast by that queue's timer callback at some
+`s ∈ [c, c + 500]` (`[c, c + 1200]`), `c` the block's time — or the run ends before that, or a later block of the run withdraws
+`x` from that queue (`Ev.qremove`: `async_remove_answers`, its service was unregistered).  No hypothesis about the block
+beyond the loop facts that `HRun` carries; registry changes may occur anywhere in the run. -/
+theorem C12_host_on_wire (d : Bool) {hO hD : List AddRec} {clock : Int} {h : Host} (hI : HInv hO hD clock h)
+    {e : Ev} {es : List Ev} {h' : Host} {c' : Int} {r : StepOut} {tr : List (Ev × StepOut)}
+    (hr : HRun h clock (e :: es) h' c' ((e, r) :: tr))
+    {pkts : List Pkt} {port : Nat} {first : Pkt} {qa : QA} (hasm : Assembled h e pkts port first qa)
+    {x : RecId} (hx : x ∈ (if d then qa.mcastLast else qa.mcastAgg).keys) :
+    (∃ p ∈ tr, ∃ s b, p.1 = .qfire s d ∧ Out.ofMcast b ∈ p.2.outs ∧ x ∈ b.keys ∧ e.time ≤ s ∧
+        s ≤ e.time + (if d then 1200 else 500)) ∨
+      c' ≤ e.time + (if d then 1200 else 500) ∨ withdrawnInTrace d tr x := by
+  cases hr with
+  | cons hax hs hrest =>
+    obtain ⟨a, hd, hperf⟩ := step_decide hs
+    obtain ⟨⟨lis, addr, hdec⟩, hf, hqa⟩ := hasm
+    rw [hdec] at hd
+    cases hd
+    have hI' := hI.step hax hdec hperf
+    obtain ⟨rest, hasm'⟩ := perform_answer hperf
+    obtain ⟨first', hf', _, _, hq1, hq2⟩ := assemble_spec hasm' hqa
+    rw [hf] at hf'; cases hf'
+    -- the record sits in queue `d` after the block, in a group created no later than the block
+    have hqueued : ∃ g ∈ (r.host.q d).groups, x ∈ g.answers.keys ∧ g.born + (qpOf d).agg + (qpOf d).addl ≤ e.time + (qpOf d).agg + (qpOf d).addl := by
+      cases d
+      · simp only [Bool.false_eq_true, if_false] at hx
+        obtain ⟨dr, _, _, heq⟩ := hq1.2 (Dict.isEmpty_false_of_mem hx)
+        obtain ⟨g', hg', hx', hb⟩ := Queue.add_has outQP h.outQ hI.outQ e.time first.now dr hax.monotone qa.mcastAgg hx
+        exact ⟨g', by simp only [Host.q, Bool.false_eq_true, if_false]; rw [heq]; exact hg', hx', by omega⟩
+      · simp only [if_true] at hx
+        obtain ⟨dr, _, _, heq⟩ := hq2.2 (Dict.isEmpty_false_of_mem hx)
+        obtain ⟨g', hg', hx', hb⟩ := Queue.add_has delayQP h.delayQ hI.delayQ e.time first.now dr hax.monotone qa.mcastLast hx
+        exact ⟨g', by simp only [Host.q, if_true]; rw [heq]; exact hg', hx', by omega⟩
+    have hnum : e.time + (qpOf d).agg + (qpOf d).addl = e.time + (if d then 1200 else 500) := by
+      have e2 := outQP_addl; have e3 := outQP_agg; have e4 := delayQP_addl; have e5 := delayQP_agg
+      cases d <;> simp only [qpOf, Bool.false_eq_true, if_false, if_true] <;> omega
+    rw [hnum] at hqueued
+    rcases hrest.live d _ _ hI' x _ hqueued with ⟨p, hp, s, b, h1, h2, h3, h4⟩ | ⟨g, hg, _, hD⟩ | hw
+    · have ht := hrest.times.2 p hp
+      rw [h1] at ht
+      exact Or.inl ⟨p, hp, s, b, h1, h2, h3, ht, h4⟩
+    · right; left
+      have hend := (hrest.inv _ _ hI').q d
+      have := hend.not_late hg
+      omega
+    · exact Or.inr (Or.inr hw)
+
+/-- **answered once, together** (block level, as `Host.step` does it): whenever a block calls `handle_assembled_query` for an
+address, it is called with *all* packets deferred for that address (plus the packet at hand, if the block is an arrival), and
+afterwards nothing is deferred and no timer is armed for the address; with `C12_host_invariant` (at most one timer per
+address) no second call for the same packets can follow -/
+theorem C12_host_answers_once {h : Host} {e : Ev} {lis : Listener} {pkts : List Pkt} {addr port : Nat}
+    (hd : h.decide e = .ok (.answer lis pkts addr port)) :
+    lis.deferredOf addr = [] ∧ lis.timers.filter (fun tm => tm.addr == addr) = [] ∧
+    ∃ msg : Option Pkt, pkts = h.lis.deferredOf addr ++ msg.toList := by
+  obtain ⟨lis1, msg, h1, _, rfl, rfl, _⟩ := decide_answer hd
+  refine ⟨take_deferredOf_same _ _ _, take_timers_same _ _ _, msg, ?_⟩
+  rw [take_pkts, deferredOf_congr h1 addr]
+
+/-! ## The one-second clause on the wire: what holds per cause, and the two ways the literal sentence fails (second review, item 3)
+
+English: "a record the host saw multicast less than one second before the query arrived is not multicast again until at least one
+second after that sighting".  Read on its words it speaks about **every** multicast transmission of the record — as an answer or as
+an additional, by whichever block — once a query has arrived for whose reply the record is wanted.  The code implements the rule
+per *cause* and for *answers* only: `_has_mcast_record_in_last_second` is asked for the answers of the query being assembled; the
+additionals of an answer are never tested, and a group already pending in a queue is not re-examined when the record is seen in
+the meantime.  Decision: these are **findings** (deviations from the sentence), not readings —
+`C12:additional-remulticast-within-1s` and `C12:pending-batch-remulticast-within-1s` in `known_findings.json`; each has a
+`…_refuted` witness below, and `C12_host_answer_cause` is the partial statement: every multicast *answer* has a causing query of
+the run, and it is with respect to *that* query (and sightings before its first packet: D12b) that the one-second rule holds. -/
+
+/-- each block of a run comes with the state it started from, in which the model accepts it -/
+theorem HRun.mem_states {h : Host} {c : Int} {evs : List Ev} {h' : Host} {c' : Int} {tr : List (Ev × StepOut)}
+    (hr : HRun h c evs h' c' tr) : ∀ p ∈ tr, ∃ st, (st, p.1, p.2) ∈ traceStates h tr ∧ st.step p.1 = .ok p.2 := by
+  induction hr with
+  | nil h c => intro p hp; cases hp
+  | @cons h clock e es r h' c' tr hax hs _ ih =>
+    intro p hp
+    rcases List.mem_cons.mp hp with rfl | hp
+    · exact ⟨h, List.mem_cons_self, hs⟩
+    · obtain ⟨st, h1, h2⟩ := ih p hp
+      exact ⟨st, List.mem_cons_of_mem _ h1, h2⟩
+
+theorem mcast_mem_immediateOuts {qa : QA} {addr port id nq : Nat} {us : Bool} {ans adds : List RecId}
+    (h : Out.mcast ans adds ∈ immediateOuts qa addr port id nq us) : Out.mcast ans adds = Out.ofMcast qa.mcastNow := by
+  simp only [immediateOuts, List.mem_append] at h
+  rcases h with h | h
+  · split at h
+    · cases h
+    · simp at h
+  · split at h
+    · cases h
+    · simpa using h
+
+/-- **`_partial`: every multicast answer has a cause, and the timing rules hold with respect to that cause.**  In a run from the
+initial state, whenever a block multicasts a record `x` **as an answer**, some query assembled in the run put it there:
+either this very block assembled it and `async_response` classified `x` "now" (`C12_immediate`: a probe, or not seen in the second
+before that query's last packet and a single SRV/A/AAAA/NSEC question; or the QU rule, D12), or an earlier block did and classified
+`x` aggregate (then `first + 20 ≤ m ≤ c + 500`) or seen-in-the-last-second (then `first + 1020 ≤ m ≤ c + 1200`, hence at least one
+second after every sighting that precedes that query's first packet — `C12_host_one_sec_timing_partial`).
+Hypotheses that make this weaker than the English, each a listed finding: the record travels **as an answer** (additionals are not
+covered: `C12_one_sec_additional_refuted`), and the rule is relative to the **causing** query (a later query that saw the record
+in between does not hold the earlier batch back: `C12_one_sec_pending_batch_refuted`); sightings between the first and the last
+packet of the causing query: D12b. -/
+theorem C12_host_answer_cause {c0 : Int} {evs : List Ev} {h' : Host} {c' : Int} {tr : List (Ev × StepOut)}
+    (hr : HRun {} c0 evs h' c' tr) :
+    ∀ p ∈ tr, ∀ ans adds, Out.mcast ans adds ∈ p.2.outs → ∀ x ∈ ans,
+      ∃ st ∈ traceStates {} tr, ∃ pkts port first qa, Assembled st.1 st.2.1 pkts port first qa ∧
+        ( (st.2.1 = p.1 ∧ st.2.2 = p.2 ∧ x ∈ qa.mcastNow.keys)
+        ∨ (x ∈ qa.mcastAgg.keys ∧ st.2.1.time ≤ p.1.time ∧ first.now + 20 ≤ p.1.time ∧ p.1.time ≤ st.2.1.time + 500)
+        ∨ (x ∈ qa.mcastLast.keys ∧ st.2.1.time ≤ p.1.time ∧ first.now + 1020 ≤ p.1.time ∧ p.1.time ≤ st.2.1.time + 1200) ) := by
+  intro p hp ans adds ho x hx
+  obtain ⟨st, hst, hstep⟩ := hr.mem_states p hp
+  obtain ⟨a, hd, hperf⟩ := step_decide hstep
+  cases a with
+  | idle lis => rw [(perform_idle hperf).2] at ho; cases ho
+  | defer lis d => rw [(perform_defer hperf).2] at ho; cases ho
+  | remove d recs => rw [(perform_remove hperf).1] at ho; cases ho
+  | ready d =>
+    obtain ⟨s, hs⟩ := decide_ready hd
+    cases d
+    · obtain ⟨b, hb, _, hw⟩ := C12_host_window_aggregate hr p hp s hs _ ho
+      have hans : ans = b.keys := by simp only [Out.ofMcast, Out.mcast.injEq] at hb; exact hb.1
+      obtain ⟨st', hst', pkts, port, first, qa, hasm, h1, h2, h3, h4⟩ := hw x (hans ▸ hx)
+      have ht : p.1.time = s := by rw [hs]; rfl
+      exact ⟨st', hst', pkts, port, first, qa, hasm, Or.inr (Or.inl ⟨h1, by omega, by omega, by omega⟩)⟩
+    · obtain ⟨b, hb, _, hw⟩ := C12_host_window_protected hr p hp s hs _ ho
+      have hans : ans = b.keys := by simp only [Out.ofMcast, Out.mcast.injEq] at hb; exact hb.1
+      obtain ⟨st', hst', pkts, port, first, qa, hasm, h1, h2, h3, h4⟩ := hw x (hans ▸ hx)
+      have ht : p.1.time = s := by rw [hs]; rfl
+      exact ⟨st', hst', pkts, port, first, qa, hasm, Or.inr (Or.inr ⟨h1, by omega, by omega, by omega⟩)⟩
+  | answer lis pkts addr port =>
+    obtain ⟨rest, hasm⟩ := perform_answer hperf
+    cases hqa : asyncResponse pkts (Gen.Reply.ucast_source port) p.1.seen with
+    | none => rw [(assemble_none hasm hqa).1] at ho; cases ho
+    | some qa =>
+      obtain ⟨first, hf, houts, _⟩ := assemble_spec hasm hqa
+      rw [houts] at ho
+      have heq := mcast_mem_immediateOuts ho
+      have hans : ans = qa.mcastNow.keys := by simp only [Out.ofMcast, Out.mcast.injEq] at heq; exact heq.1
+      exact ⟨(st, p.1, p.2), hst, pkts, port, first, qa, ⟨⟨lis, addr, hd⟩, hf, hqa⟩, Or.inl ⟨rfl, rfl, hans ▸ hx⟩⟩
+
+/-- not a packet of a truncated train and not a probe: in a run of such events every assembly is the one packet at hand -/
+def Ev.plain : Ev → Bool
+  | .rx _ _ _ _ _ _ (.query p) _ _ => !p.truncated && !p.isProbe
+  | _ => true
+
+/-- the records a reply multicasts, at once or from a queue: answers and their additionals -/
+def QA.mcastRecords (qa : QA) : List RecId :=
+  (qa.mcastNow ++ qa.mcastAgg ++ qa.mcastLast).keys ++ (qa.mcastNow ++ qa.mcastAgg ++ qa.mcastLast).flatMap (·.2)
+
+/-- **the one-second clause as the English has it** (for ordinary, non-probe queries; no truncated trains anywhere in the run):
+once a query has arrived at `t` for whose reply record `x` is wanted — as an answer or as an additional — and the host saw `x`
+multicast at `s.created`, less than a second before, no block of the run multicasts `x` again (in either section) before
+`s.created + 1000` -/
+def C12_one_sec_wire_full : Prop :=
+  ∀ (c0 : Int) (pre : List Ev) (t : Int) (addr port dataId size : Nat) (hasQu : Bool) (p : Pkt) (seen : SeenMap) (draws : List Int)
+    (post : List Ev) (h' : Host) (outs : List (Int × List Out × List Draw)),
+    (∀ e ∈ pre ++ post, e.plain = true) → p.truncated = false → p.isProbe = false →
+    Host.run {} c0 (pre ++ .rx t addr port dataId size hasQu (.query p) seen draws :: post) = .ok (h', outs) →
+    ∀ qa, asyncResponse [p] (Gen.Reply.ucast_source port) seen = some qa →
+    ∀ x s, seen.get x = some s → s.created ≤ t → t - s.created < 1000 → x ∈ qa.mcastRecords →
+    ∀ o ∈ outs.drop pre.length, ∀ ans adds, Out.mcast ans adds ∈ o.2.1 → x ∈ ans ++ adds → s.created + 1000 ≤ o.1
+
+/-- a PTR question (one candidate answer, record 1, with `adds` as its additionals) as datagram `dataId` arriving at `now` -/
+def ptrQuery (dataId : Nat) (now : Int) (adds : List RecId) : Pkt :=
+  { dataId, now, id := 7, flags := 0, numAuth := 0, nq := 1, q0type := 12,
+    items := [{ qu := false, cands := [{ id := 1, ttl := 4500, adds }] }], known := [] }
+
+/-- **`_refuted`, additionals** (`C12:additional-remulticast-within-1s`): record 2 (say, the SRV) was seen multicast at 700; a PTR
+question arrives at 1000; its answer (record 1) is aggregated and goes out at 1020 **with record 2 as an additional** — 320 ms
+after the sighting.  (Real responder: SRV answered at 5800, PTR question at 6100, reply at 6124 carries the SRV again.) -/
+theorem C12_one_sec_additional_refuted : ¬ C12_one_sec_wire_full := by
+  intro h
+  have hrun : (Host.run {} 1000 ([] ++ Ev.rx 1000 1 5353 1 50 false (.query (ptrQuery 1 1000 [2])) [(2, { created := 700, ttl := 120 })] [20] ::
+      [Ev.qfire 1020 false])).toOption.map (·.2) = some [(1000, [], [Draw.mk 20 120 20]), (1020, [Out.mcast [1] [2]], [])] := by decide
+  cases hx : Host.run {} 1000 ([] ++ Ev.rx 1000 1 5353 1 50 false (.query (ptrQuery 1 1000 [2])) [(2, { created := 700, ttl := 120 })] [20] ::
+      [Ev.qfire 1020 false]) with
+  | error m => rw [hx] at hrun; cases hrun
+  | ok v =>
+    obtain ⟨h', outs⟩ := v
+    rw [hx] at hrun
+    simp only [Except.toOption, Option.map_some, Option.some.injEq] at hrun
+    have := h 1000 [] 1000 1 5353 1 50 false (ptrQuery 1 1000 [2]) [(2, { created := 700, ttl := 120 })] [20] [Ev.qfire 1020 false] h' outs
+      (by decide) (by decide) (by decide) hx _ (by decide : asyncResponse [ptrQuery 1 1000 [2]] (Gen.Reply.ucast_source 5353)
+        [(2, { created := 700, ttl := 120 })] = some { ucast := [], mcastNow := [], mcastAgg := [(1, [2])], mcastLast := [] })
+      2 { created := 700, ttl := 120 } (by decide) (by decide) (by decide) (by decide)
+      (1020, [Out.mcast [1] [2]], []) (by rw [hrun]; decide) [1] [2] (by decide) (by decide)
+    revert this; decide
+
+/-- **`_refuted`, a batch that was already pending** (`C12:pending-batch-remulticast-within-1s`): query A (PTR) arrives at 1000, its
+answer (record 1) is aggregated with draw 120 and waits; the host sees record 1 multicast at 1005; query B for the same record
+arrives at 1010 and is classified "seen in the last second" (protected queue, not before 2030) — but A's pending batch multicasts
+record 1 at 1120, 115 ms after the sighting.  (Real responder: sighting 5805, query 5810, multicast 6300.) -/
+theorem C12_one_sec_pending_batch_refuted : ¬ C12_one_sec_wire_full := by
+  intro h
+  have hrun : (Host.run {} 1000 ([Ev.rx 1000 1 5353 1 50 false (.query (ptrQuery 1 1000 [])) [] [120]] ++
+      Ev.rx 1010 2 5353 2 50 false (.query (ptrQuery 2 1010 [])) [(1, { created := 1005, ttl := 4500 })] [20] ::
+      [Ev.qfire 1120 false])).toOption.map (·.2) =
+      some [(1000, [], [Draw.mk 20 120 120]), (1010, [], [Draw.mk 20 120 20]), (1120, [Out.mcast [1] []], [])] := by decide
+  cases hx : Host.run {} 1000 ([Ev.rx 1000 1 5353 1 50 false (.query (ptrQuery 1 1000 [])) [] [120]] ++
+      Ev.rx 1010 2 5353 2 50 false (.query (ptrQuery 2 1010 [])) [(1, { created := 1005, ttl := 4500 })] [20] ::
+      [Ev.qfire 1120 false]) with
+  | error m => rw [hx] at hrun; cases hrun
+  | ok v =>
+    obtain ⟨h', outs⟩ := v
+    rw [hx] at hrun
+    simp only [Except.toOption, Option.map_some, Option.some.injEq] at hrun
+    have := h 1000 [Ev.rx 1000 1 5353 1 50 false (.query (ptrQuery 1 1000 [])) [] [120]] 1010 2 5353 2 50 false (ptrQuery 2 1010 [])
+      [(1, { created := 1005, ttl := 4500 })] [20] [Ev.qfire 1120 false] h' outs
+      (by decide) (by decide) (by decide) hx _ (by decide : asyncResponse [ptrQuery 2 1010 []] (Gen.Reply.ucast_source 5353)
+        [(1, { created := 1005, ttl := 4500 })] = some { ucast := [], mcastNow := [], mcastAgg := [], mcastLast := [(1, [])] })
+      1 { created := 1005, ttl := 4500 } (by decide) (by decide) (by decide) (by decide)
+      (1120, [Out.mcast [1] []], []) (by rw [hrun]; decide) [1] [] (by decide) (by decide)
+    revert this; decide
+
+
+/-! ## Truncated trains: one query, which arrives with its last packet (second review, item 4)
+
+**Reading, fixed here and used by the oracle** (`harness/c12.py::spec_classes`): a truncated train is *one* query ("held … for
+continuation packets from the same source and then answered once"); its questions are the questions of all its packets; it has
+**arrived when its last packet has**.  Hence (i) "a query consisting of a single SRV, A, AAAA or NSEC question" is judged on the
+whole train; (ii) lower bounds — the 20 ms jitter, the one-second rule (D12b) — are relative to the last packet's arrival and to
+sightings before it; (iii) upper bounds (500 ms, 1.2 s) count from the instant the query is handled, which for a train that nobody
+completes is the end of its 400–500 ms hold ("and *then* answered").  Before the review the oracle took "arrival" to be the last
+packet for D12b and the first packet for the 20 ms bound, and copied the code's first-packet question test.
+
+The code deviates in two ways, both listed findings: `async_response` tests the question list of the **first packet only**
+(`C12:train-first-packet-question-rule`), and `handle_assembled_query` stamps the queued answers with the **first packet's**
+arrival, so a train completed by an untruncated packet can be answered less than 20 ms after it is complete
+(`C12:train-reply-before-jitter`; same root cause as D12b). -/
+
+/-- number of questions of a train -/
+def trainNq (pkts : List Pkt) : Nat := (pkts.map (·.nq)).sum
+
+/-- type of the first question of the train (of the first packet that carries a question) -/
+def trainQ0 (pkts : List Pkt) : Option Nat := (pkts.find? (fun p => decide (0 < p.nq))).map (·.q0type)
+
+/-- hypothesis "only the first packet carries questions" — true of every train `DNSOutgoing.packets()` emits (continuation packets
+carry known answers only) and of every single-packet query -/
+def TailNoQuestions (pkts : List Pkt) : Prop := ∀ p ∈ pkts.tail, p.nq = 0
+
+/-- full statement: what `async_response` tests (the first packet: `asyncResponse` hands `first.nq`, `first.q0type` to
+`mcRoute`, see `C12_immediate`) is the test on the whole train -/
+def C12_train_question_rule_full : Prop :=
+  ∀ (pkts : List Pkt) (first : Pkt), pkts.head? = some first →
+    ((first.nq = 1 ∧ immediateType first.q0type) ↔ (trainNq pkts = 1 ∧ ∃ t, trainQ0 pkts = some t ∧ immediateType t))
+
+theorem sum_nq_zero {l : List Pkt} (h : ∀ p ∈ l, p.nq = 0) : (l.map (·.nq)).sum = 0 := by
+  induction l with
+  | nil => rfl
+  | cons x xs ih =>
+    simp only [List.map_cons, List.sum_cons]
+    rw [h x List.mem_cons_self, ih (fun p hp => h p (List.mem_cons_of_mem _ hp))]
+
+/-- **`_partial`**: under `TailNoQuestions` the first-packet test *is* the whole-train test, so `C12_immediate` (with
+`nq := first.nq`, `q0 := first.q0type`, as `asyncResponse` calls it) states the sentence for the train.  What is missing is exactly
+the finding `C12:train-first-packet-question-rule`: trains in which a later packet carries a question. -/
+theorem C12_train_question_rule_partial (pkts : List Pkt) (first : Pkt) (hf : pkts.head? = some first) (ht : TailNoQuestions pkts) :
+    ((first.nq = 1 ∧ immediateType first.q0type) ↔ (trainNq pkts = 1 ∧ ∃ t, trainQ0 pkts = some t ∧ immediateType t)) := by
+  cases pkts with
+  | nil => cases hf
+  | cons p rest =>
+    simp only [List.head?_cons, Option.some.injEq] at hf
+    subst hf
+    have hsum : trainNq (p :: rest) = p.nq := by
+      simp only [trainNq, List.map_cons, List.sum_cons]
+      rw [sum_nq_zero (fun x hx => ht x (by simpa using hx))]; rfl
+    rw [hsum]
+    constructor
+    · rintro ⟨h1, h2⟩
+      refine ⟨h1, p.q0type, ?_, h2⟩
+      simp [trainQ0, h1]
+    · rintro ⟨h1, t, h2, h3⟩
+      refine ⟨h1, ?_⟩
+      simp [trainQ0, h1] at h2
+      rw [h2]; exact h3
+
+/-- a truncated packet with the single question SRV (candidate answer: record 1) and the untruncated packet that completes the
+train with a PTR question (candidate answer: record 2) -/
+def srvThenPtr : List Pkt :=
+  [ { dataId := 1, now := 0, id := 7, flags := 512, numAuth := 0, nq := 1, q0type := 33,
+      items := [{ qu := false, cands := [{ id := 1, ttl := 120, adds := [] }] }], known := [] },
+    { dataId := 2, now := 100, id := 8, flags := 0, numAuth := 0, nq := 1, q0type := 12,
+      items := [{ qu := false, cands := [{ id := 2, ttl := 4500, adds := [] }] }], known := [] } ]
+
+/-- **`_refuted`**: the train `srvThenPtr` has two questions, its first packet one SRV question -/
+theorem C12_train_question_rule_refuted : ¬ C12_train_question_rule_full := by
+  intro h
+  have := (h srvThenPtr _ rfl).mp ⟨rfl, Or.inl rfl⟩
+  revert this
+  simp [trainNq, srvThenPtr]
+
+/-- … and the model (like the code) then sends **both** answers at once, the PTR included: nothing is aggregated -/
+example : asyncResponse srvThenPtr false [] = some { ucast := [], mcastNow := [(1, []), (2, [])], mcastAgg := [], mcastLast := [] } := by
+  decide
+
+/-- `TailNoQuestions` is satisfiable by a real two-packet train (a question packet and a continuation) -/
+example : TailNoQuestions [ptrQuery 1 0 [], { ptrQuery 2 30 [] with nq := 0, items := [] }] := by
+  intro p hp; simp at hp; subst hp; rfl
+
+/-- full statement of the jitter's lower bound **from the arrival of the complete query**: the loop time `a.clock` at which the `add`
+is executed is the arrival of the last packet for every query that is not left to its hold timer -/
+def C12_jitter_from_arrival_full : Prop :=
+  ∀ (c0 : Int) (evs : List QEv) (q' : Queue) (c' : Int) (outs : List (Int × Dict)), Run outQP {} c0 evs q' c' outs →
+    ∀ o ∈ outs, ∀ r ∈ o.2.keys, ∃ a ∈ addsOf evs, r ∈ a.keys ∧ a.clock + 20 ≤ o.1 ∧ o.1 ≤ a.clock + 500
+
+/-- **`_partial`**: the bound holds from the *stamp* (`C12_window_aggregate`), hence from the arrival whenever stamp and handling time
+coincide — every single-packet query.  (A train left to its hold timer is handled 400–500 ms after its last packet, so its reply is
+trivially later than 20 ms after the arrival: `C12_tc_hold`.)  Missing: exactly `C12:train-reply-before-jitter`. -/
+theorem C12_jitter_from_arrival_partial {c0 : Int} {evs : List QEv} {q' : Queue} {c' : Int} {outs : List (Int × Dict)}
+    (h : Run outQP {} c0 evs q' c' outs) :
+    ∀ o ∈ outs, ∀ r ∈ o.2.keys, ∃ a ∈ addsOf evs, r ∈ a.keys ∧ (a.now = a.clock → a.clock + 20 ≤ o.1) ∧ a.now + 20 ≤ o.1 ∧ o.1 ≤ a.clock + 500 := by
+  intro o ho r hr
+  obtain ⟨a, ha, h1, _, h3, h4⟩ := C12_window_aggregate h o ho r hr
+  exact ⟨a, ha, h1, fun he => by omega, h3, h4⟩
+
+/-- a legal run: a query at 0 (record 1, draw 120: group and timer due at 120); at loop time 119 the reply to a train whose first
+packet arrived at 50 and whose last, untruncated, packet arrives now (record 2; stamp 50, draw 20 ⇒ `send_after` 70, merged into the
+pending group); both go out at 120 -/
+theorem earlyTrainRun : Run outQP {} 0 [.add 0 0 120 [(1, [])], .add 119 50 20 [(2, [])], .fire 120] {} 120 [(120, [(1, []), (2, [])])] := by
+  refine Run.cons (e := .add 0 0 120 [(1, [])]) ?_ (Run.cons (e := .add 119 50 20 [(2, [])]) ?_ (Run.cons (e := .fire 120) ?_ (Run.nil _ _)))
+  · refine ⟨by decide, by decide, by decide, by decide, ?_⟩
+    intro d hd; cases hd
+  · refine ⟨by decide, by decide, by decide, by decide, ?_⟩
+    intro d hd
+    have h2 : some (120 : Int) = some d := hd
+    cases h2; decide
+  · exact ⟨by decide, by decide⟩
+
+/-- **`_refuted`**: record 2 is multicast at 120, one millisecond after its query was complete (119) -/
+theorem C12_jitter_from_arrival_refuted : ¬ C12_jitter_from_arrival_full := by
+  intro h
+  obtain ⟨a, ha, hr, hb, _⟩ := h _ _ _ _ _ earlyTrainRun (120, [(1, []), (2, [])]) (by simp) 2 (by decide)
+  simp only [addsOf, List.mem_cons, List.not_mem_nil, or_false] at ha
+  rcases ha with rfl | rfl
+  · simp [Dict.keys] at hr
+  · revert hb; decide
+
+/-! ## Tie: the source of `_handlers/multicast_outgoing_queue.py`, translated statement by statement on every run
+
+`Zc.GenFn.Queue` is regenerated from the *bodies* of `MulticastOutgoingQueue.async_add`, `async_remove_answers`,
+`_remove_answers_from_queue` and `async_ready` (`tools/gen_fn.py`; `random.randint`, `loop.time()`, `current_time_millis()` are parameters, `loop.call_at` and
+`zc.async_send` returned effects); `GenFacts/FnQueue.lean` proves that the `Queue` model above computes what those bodies
+compute.  So the window theorems speak about a queue whose every step is the translated source, and an edit of one of the four
+bodies breaks a named lemma of `FnQueue` at stage P. -/
+section Tie
+open Zc.Py Zc.GenFn.Queue Zc.GenFacts.FnQueue
+
+/-- **The model queue is the translated queue, along every history of calls.**  For any sequence of `async_add` (with any draw
+and loop time), `async_ready` (clock reading = loop time, as in the model), `_remove_answers_from_queue` and `async_remove_answers`
+(the D5 repair: `Queue.removeRecords`) calls on a fresh queue,
+handed well-formed dicts: the translated code never raises (`queue[0]`, `queue[-1]`, `popleft` always find an element; the `while`
+bound suffices), its deque is the model's group list, each `call_at` it performs is the model's new timer and each transmission the
+model's batch, in order. -/
+theorem C12_queue_is_source (addl agg : Int) (ops : List QOp) (hops : ∀ op ∈ ops, op.WF) :
+    ∃ s', runGen ops (MulticastOutgoingQueue.init () addl agg) = .ok (s', (runModel { addl := addl, agg := agg } ops {}).2)
+      ∧ s'.queue = (runModel { addl := addl, agg := agg } ops {}).1.groups.map strip := by
+  obtain ⟨s', h1, h2, _⟩ := run_eq ops hops (s := MulticastOutgoingQueue.init () addl agg) (q := {})
+    ⟨rfl, fun g hg => by cases hg⟩
+  exact ⟨s', h1, h2.groups⟩
+
+/-- non-vacuity (the aggregation queue): two queries 10 ms apart, draws 100 and 20 — the second merges into the pending group
+(its `send_after` 1130 is not later than 1200), one timer is armed at 1100, the flush at 1100 sends both records in one batch -/
+example :
+    (runGen [.add 1000 [(1, [])] 100 1000, .add 1010 [(2, [7])] 20 1010, .ready 1100] (MulticastOutgoingQueue.init () 0 500)).toOption.map
+        (fun p => (p.1.queue.length, p.2.length))
+      = some (0, 2)
+    ∧ (runModel outQP [.add 1000 [(1, [])] 100 1000, .add 1010 [(2, [7])] 20 1010, .ready 1100] {}).2
+      = [QEffect.callAt 1100, QEffect.send [(1, []), (2, [7])]] := by
+  decide
+
+end Tie
 
 end Zc.Reply
